@@ -113,6 +113,8 @@ type c11State struct {
 	// (SeqKind: p1 = phase-1 only, badhmac = phase-1 + wrong answer, p1-tunnel = phase-1 as tunnel type)
 	// naming client SeqName ("" = an id no client has) on the same connection
 	SeqReq, SeqKind, SeqName string
+	ReauthA, ReauthB         string // connection of ReauthA warmed every handler, then validly re-authenticated as ReauthB
+	Redo                     bool   // create -> delete -> other party re-creates histories (see applyRedo)
 	TwoNode                  bool // V2 is connected to a second node (shared store, cross-node listener/pool, recording bridge manager)
 	Gate                     bool // the store is wrapped by a read gate (concurrent-requesters monitor)
 	Hist                     bool // object/connection history: a migrated mapping with its ex-listener L, a deleted mapping, and
@@ -120,6 +122,9 @@ type c11State struct {
 }
 
 var c11WorldSeq int
+
+// c11HandledTypes: registered + special-cased command types (filled by the table test)
+var c11HandledTypes []byte
 
 func c11NewWorld(t testing.TB, run *vk.Run, extra func(w *c11World)) *c11World {
 	return c11NewWorldState(t, run, extra, c11State{})
@@ -419,7 +424,54 @@ func c11NewWorldState(t testing.TB, run *vk.Run, extra func(w *c11World), st c11
 	add("C:V2", []string{"V2"}, w.secret["V2"])
 	add("C:S", []string{"S"}, w.secret["S"])
 
-	// normalisation: world-specific strings -> role/object names (longest first)
+	w.buildRepl()
+	if st.Hist {
+		// W (authenticated, owner of MW) goes away; U2 is the very next connection to get a
+		// control-connection record: it asks for a challenge for V1's id and answers it wrongly
+		w.cl["W"].CloseByPeer()
+		u2 := n.MustConnect("")
+		w.cl["U2"] = u2
+		w.roles = append(w.roles, "U2")
+		if r1, _ := u2.Phase1(w.id["V1"], "control"); r1 == nil || r1.Challenge == "" {
+			t.Fatalf("c11: phase-1 for U2 gave no challenge: %+v", r1)
+		}
+		if r2, _ := u2.Phase2(w.id["V1"], "00ff00ff", "control"); r2 != nil && r2.Success {
+			t.Fatalf("c11: garbage phase-2 accepted for U2")
+		}
+		if u2.ServerClosedTransport() {
+			t.Fatalf("c11: server closed U2 after the failed handshake; requester U2 cannot be built")
+		}
+		delete(w.cl, "W")
+	}
+	if st.SeqReq != "" {
+		w.applySeq(st)
+	}
+	if st.Redo {
+		w.applyRedo()
+		w.buildRepl()
+	}
+	if st.ReauthA != "" {
+		w.applyReauth(st.ReauthA, st.ReauthB, c11HandledTypes)
+	}
+	if extra != nil {
+		extra(w)
+	}
+	// drain whatever the setup produced, then take the baseline
+	for i := 0; i < 3; i++ {
+		runtime.Gosched()
+		for _, role := range w.roles {
+			w.cl[role].DrainRaw()
+		}
+	}
+	w.snap = w.dump()
+	w.ident = w.identities()
+	run.Count("worlds_built", 1)
+	run.Max("goroutines_max", int64(runtime.NumGoroutine()))
+	return w
+}
+
+// buildRepl: normalisation of world-specific strings -> role/object names (longest first)
+func (w *c11World) buildRepl() {
 	type kv struct{ k, v string }
 	var pairs []kv
 	for _, o := range w.objs {
@@ -447,42 +499,101 @@ func c11NewWorldState(t testing.TB, run *vk.Run, extra func(w *c11World), st c11
 		}
 	}
 	w.repl = strings.NewReplacer(flat...)
-	if st.Hist {
-		// W (authenticated, owner of MW) goes away; U2 is the very next connection to get a
-		// control-connection record: it asks for a challenge for V1's id and answers it wrongly
-		w.cl["W"].CloseByPeer()
-		u2 := n.MustConnect("")
-		w.cl["U2"] = u2
-		w.roles = append(w.roles, "U2")
-		if r1, _ := u2.Phase1(w.id["V1"], "control"); r1 == nil || r1.Challenge == "" {
-			t.Fatalf("c11: phase-1 for U2 gave no challenge: %+v", r1)
-		}
-		if r2, _ := u2.Phase2(w.id["V1"], "00ff00ff", "control"); r2 != nil && r2.Success {
-			t.Fatalf("c11: garbage phase-2 accepted for U2")
-		}
-		if u2.ServerClosedTransport() {
-			t.Fatalf("c11: server closed U2 after the failed handshake; requester U2 cannot be built")
-		}
-		delete(w.cl, "W")
+}
+
+func (w *c11World) addObj(name string, parties []string, marks ...string) {
+	o := &c11Obj{Name: name, Parties: map[string]bool{}, Marks: marks}
+	for _, p := range parties {
+		o.Parties[p] = true
 	}
-	if st.SeqReq != "" {
-		w.applySeq(st)
+	w.objs = append(w.objs, o)
+	w.obj[name] = o
+}
+
+// must runs a setup command as role and returns the "data" object of its success response.
+func (w *c11World) must(role string, ct packet.CommandType, body any) map[string]any {
+	c11SetupSeq++
+	cmd := &packet.CommandPacket{CommandType: ct, CommandId: fmt.Sprintf("c11-setup-%d", c11SetupSeq), CommandBody: c11J(body)}
+	resp, _, err := w.cl[role].Command(cmd, 5*time.Second)
+	if resp == nil {
+		w.t.Fatalf("c11: setup command %d as %s: no response (%v)", ct, role, err)
 	}
-	if extra != nil {
-		extra(w)
+	var r struct {
+		Success bool           `json:"success"`
+		Error   string         `json:"error"`
+		Data    map[string]any `json:"data"`
 	}
-	// drain whatever the setup produced, then take the baseline
-	for i := 0; i < 3; i++ {
-		runtime.Gosched()
-		for _, role := range w.roles {
-			w.cl[role].DrainRaw()
+	if e := json.Unmarshal([]byte(resp.CommandBody), &r); e != nil || !r.Success {
+		w.t.Fatalf("c11: setup command %d as %s failed: %s", ct, role, resp.CommandBody)
+	}
+	return r.Data
+}
+
+var c11SetupSeq int
+
+// applyRedo: multi-step object histories made through the real commands, with no
+// read-type command in between: V1 creates a domain name and deletes it, V2 registers the
+// same name; V1 deletes mapping M, then S activates V2's code K (a new mapping S->V2).
+func (w *c11World) applyRedo() {
+	sub := "re" + w.mark
+	d1 := w.must("V1", packet.HTTPDomainCreate, map[string]any{"target_url": "http://dh-r1-" + w.mark + ".internal:8080", "subdomain": sub, "base_domain": c11BaseDomain, "description": "desc-r1-" + w.mark})
+	id1, _ := d1["mapping_id"].(string)
+	w.must("V1", packet.HTTPDomainDelete, map[string]any{"mapping_id": id1})
+	w.must("V2", packet.HTTPDomainCreate, map[string]any{"target_url": "http://dh-r2-" + w.mark + ".internal:8080", "subdomain": sub, "base_domain": c11BaseDomain, "description": "desc-r2-" + w.mark})
+	w.addObj("DR", []string{"V2"}, "dh-r2-"+w.mark, "desc-r2-"+w.mark)
+	w.must("V1", packet.MappingDelete, map[string]any{"mapping_id": w.M.ID})
+	act := w.must("S", packet.ConnectionCodeActivate, map[string]any{"code": w.K.Code, "listen_address": "127.0.0.1:19200"})
+	mid, _ := act["mapping_id"].(string)
+	if mid == "" {
+		w.t.Fatalf("c11: redo: activation returned no mapping id: %v", act)
+	}
+	k := w.obj["K"]
+	k.Parties["S"] = true
+	k.Marks = append(k.Marks, mid)
+	w.mapObj[mid] = "K"
+	w.run.Count("redo_worlds_built", 1)
+}
+
+// applyReauth: the connection of role A issues one (harmless) command of every handled
+// type, then completes a VALID handshake as B on the same connection (B's former
+// connection is displaced); A logs in again on a fresh connection. From then on the
+// first connection is B's and nothing but B's.
+func (w *c11World) applyReauth(a, b string, types []byte) {
+	x := w.cl[a]
+	seq := 0
+	for _, ct := range types {
+		if ct == byte(packet.Disconnect) {
+			continue
+		}
+		seq++
+		out := w.exec(c11Case{CT: ct, PT: packet.JsonCommand, Req: a, Kind: "warmup", Forge: "none", Body: "{}"}, 900000+seq, false)
+		if out.Watchdog {
+			w.t.Fatalf("c11: reauth warm-up command %d hung", ct)
 		}
 	}
-	w.snap = w.dump()
-	w.ident = w.identities()
-	run.Count("worlds_built", 1)
-	run.Max("goroutines_max", int64(runtime.NumGoroutine()))
-	return w
+	old := w.cl[b]
+	if ok, err := x.Login(w.id[b], w.secret[b], "control"); !ok {
+		w.t.Fatalf("c11: reauth: login as %s on %s's connection failed: %v", b, a, err)
+	}
+	if old.ServerClosedTransport() {
+		old.CloseByPeer() // the adapter's read loop ends and cleans up
+	} else {
+		old.CloseByPeer()
+	}
+	w.cl[b] = x
+	c2 := w.n.MustConnect("")
+	if ok, err := c2.Login(w.id[a], w.secret[a], "control"); !ok {
+		w.t.Fatalf("c11: reauth: fresh login of %s failed: %v", a, err)
+	}
+	w.cl[a] = c2
+	if !c11WaitNoGoroutine([]string{"pushConfigToClient", "handleHandshake.gowrap"}, 10*time.Second) {
+		w.t.Fatalf("c11: reauth world: config push goroutines did not finish")
+	}
+	if k := w.sm(b).GetControlConnection(x.ConnID); k == nil || !k.IsAuthenticated() || k.GetClientID() != w.id[b] {
+		w.t.Fatalf("c11: reauth: connection is not %s after the valid handshake", b)
+	}
+	w.buildRepl()
+	w.run.Count("reauth_worlds_built", 1)
 }
 
 func (w *c11World) close() {
@@ -1461,7 +1572,7 @@ func (w *c11World) judge(cs c11Case, cmd *packet.CommandPacket, out *c11Outcome)
 
 func (w *c11World) describe() map[string]any {
 	return map[string]any{"ids": w.id, "M": w.M.ID, "MS": w.MS.ID, "K": w.K.Code, "KS": w.KS.Code,
-		"M0(server-listened, ListenClientID=0, target V2)": w.M0.ID, "D1": w.D["D1"].ID, "D2": w.D["D2"].ID, "DS": w.D["DS"].ID, "mark": w.mark, "mapping_state": w.state.Map, "code_state": w.state.Code, "history_world": w.state.Hist, "two_nodes(V2 on node-b)": w.state.TwoNode, "sequence": fmt.Sprintf("%s/%s/%s", w.state.SeqReq, w.state.SeqKind, w.state.SeqName),
+		"M0(server-listened, ListenClientID=0, target V2)": w.M0.ID, "D1": w.D["D1"].ID, "D2": w.D["D2"].ID, "DS": w.D["DS"].ID, "mark": w.mark, "mapping_state": w.state.Map, "code_state": w.state.Code, "history_world": w.state.Hist, "two_nodes(V2 on node-b)": w.state.TwoNode, "reauth(conn was A, now validly B)": w.state.ReauthA + ">" + w.state.ReauthB, "redo_history": w.state.Redo, "sequence": fmt.Sprintf("%s/%s/%s", w.state.SeqReq, w.state.SeqKind, w.state.SeqName),
 		"history_roles": "L=ex-listener of MH (migrated to L2 by MigrateClientMappings); MG=deleted mapping; W=authenticated owner of MW, disconnected; U2=first connection after W left, phase-1 for V1 + failed phase-2",
 		"roles": "U0=no handshake; U1=phase-1 for V1 only; V1=listen side of M; V2=target side of M, owner of K; S=unrelated, owns MS/KS/DS"}
 }
@@ -1660,11 +1771,15 @@ func (d *c11Driver) sweep(types []byte, pts []packet.Type, forges []string, thor
 					if d.record != nil && d.state == (c11State{}) {
 						d.record[recKey] = base
 					}
-					if d.state.SeqReq != "" {
+					if d.state.SeqReq != "" || d.state.ReauthA != "" {
 						if plain, ok := d.record[recKey]; ok {
 							run.Count("sequence_vs_plain_pairs", 1)
 							if plain != base {
-								run.Violation(fmt.Sprintf("C11:unproven-handshake|after=login|variant=%s|effect=command-outcome-differs", d.state.SeqKind),
+								sig := fmt.Sprintf("C11:unproven-handshake|after=login|variant=%s|effect=command-outcome-differs", d.state.SeqKind)
+								if d.state.ReauthA != "" {
+									sig = "C11:reauthenticated-connection|command-outcome-differs-from-plain-requester"
+								}
+								run.Violation(sig,
 									map[string]any{"sequence": d.state, "command": c11CmdName(ct, pt) + d.suffix, "command_type": ct, "requester": req, "body_kind": kind, "plain_requester": plain, "after_sequence": base, "outcome": bout})
 							}
 						}
@@ -1829,6 +1944,32 @@ func TestVerifC11Table(t *testing.T) {
 		d.reqs = []string{sq.SeqReq}
 		d.sweep(handled, []packet.Type{packet.JsonCommand}, []string{"ids"}, false)
 	}
+	d.reqs = nil
+	// re-authentication: a connection that was A (and used every handler) is now validly B
+	c11HandledTypes = handled
+	pairs := [][2]string{{"S", "V1"}, {"V1", "S"}, {"V2", "V1"}}
+	if run.Thorough() {
+		pairs = append(pairs, [2]string{"S", "V2"}, [2]string{"V1", "V2"}, [2]string{"V2", "S"})
+	}
+	for _, pr := range pairs {
+		if d.w != nil {
+			d.w.close()
+			d.w = nil
+		}
+		d.state = c11State{ReauthA: pr[0], ReauthB: pr[1]}
+		d.reqs = []string{pr[1]}
+		d.sweep(handled, []packet.Type{packet.JsonCommand}, []string{"ids"}, false)
+	}
+	run.Floor("reauth_worlds_built", int64(len(pairs)))
+	// histories: create -> delete -> other party re-creates, then everybody reads
+	if d.w != nil {
+		d.w.close()
+		d.w = nil
+	}
+	d.state = c11State{Redo: true}
+	d.reqs = []string{"V1", "V2", "S", "U1"}
+	d.sweep(handled, []packet.Type{packet.JsonCommand}, []string{"ids"}, false)
+	run.Floor("redo_worlds_built", 1)
 	d.reqs = nil
 	// two-node world: the target-side victim V2 is connected to node-b; requesters on node-a
 	if d.w != nil {
